@@ -47,6 +47,22 @@ Definition grid_points (x y w h s : Q) (n : nat) : list vec3 :=
       mkV (x + (inject_Z (Z.of_nat i) + (1 # 2)) * (w / inject_Z (Z.of_nat n)))
           (y + (inject_Z (Z.of_nat j) + (1 # 2)) * (h / inject_Z (Z.of_nat n))) (- s)) (seq 0 n)) (seq 0 n).
 
+(* the frame a window is placed in (WallGeom::to_polygon_coords_matrix): origin at the first vertex of the wall
+   outline, x axis along its first edge. Exact for first edges parallel to a local axis (what a rectangle listed
+   from any of its corners gives); None otherwise *)
+Definition frame_of (poly : list pt2) : option (pt2 * (Q * Q)) :=
+  match poly with
+  | v0 :: v1 :: _ :: _ =>
+      let dx := fst v1 - fst v0 in let dy := snd v1 - snd v0 in
+      if qeqb dy 0 then (if qltb 0 dx then Some (v0, (1, 0)) else if qltb dx 0 then Some (v0, (- (1), 0)) else None)
+      else if qeqb dx 0 then (if qltb 0 dy then Some (v0, (0, 1)) else Some (v0, (0, - (1))))
+      else None
+  | _ => None
+  end.
+Definition in_frame (f : pt2 * (Q * Q)) (v : vec3) : vec3 :=
+  let c := fst (snd f) in let s := snd (snd f) in
+  mkV (fst (fst f) + c * vx v - s * vy v) (snd (fst f) + s * vx v + c * vy v) (vz v).
+
 (* ---- aggregation over the design-day hours ---- *)
 Record hour := mkHour { hr_f : Q; hr_dir : Q; hr_dif : Q }.   (* sunlit fraction, beam, diffuse on the window plane *)
 Definition hour_factor (h : hour) : Q := (hr_f h * hr_dir h + hr_dif h) / (hr_dir h + hr_dif h).
@@ -115,9 +131,15 @@ Definition origins_ok (c : c12_case) (w : c12_window) : bool :=
       | Some wall =>
           match wq_pos q, sf_pose wall with
           | Some (x, y), Some p =>
-              let model := map (to_global p) (grid_points x y (wq_w q) (wq_h q) (wq_s q) 5) in
-              Nat.eqb (length model) (length (cw_origins w)) &&
-              forallb (fun pq => vclose (1 # 1000) (fst pq) (snd pq)) (combine model (cw_origins w))
+              match frame_of (sf_poly wall) with
+              | Some f =>
+                  let model := map (fun v => to_global p (in_frame f v)) (grid_points x y (wq_w q) (wq_h q) (wq_s q) 5) in
+                  Nat.eqb (length model) (length (cw_origins w)) &&
+                  forallb (fun pq => vclose (1 # 1000) (fst pq) (snd pq)) (combine model (cw_origins w))
+              | None =>
+                  (* fewer than three vertices: no frame, no sample points; a first edge in a general direction: not compared *)
+                  match sf_poly wall with _ :: _ :: _ :: _ => true | _ => Nat.eqb (length (cw_origins w)) 0 end
+              end
           | _, _ => Nat.eqb (length (cw_origins w)) 0
           end
       end
